@@ -1408,6 +1408,10 @@ pub fn work_list(cfg: &RunCfg) -> Option<WorkList> {
                 fixed.push(Item::new(w, "alt-order"));
                 fixed.push(Item::new(&std::format!("(?<={})c", w.replace("\\1", "")), "alt-order-in-lookbehind"));
             }
+            // the size facts of every escape / assertion / class form
+            for w in corpus::ingredient_sweep(false).iter() {
+                fixed.push(Item::new(w, "ingredient-sweep"));
+            }
             let ex = corpus::exhaustive(&["a", "b", ".", "é"], &OPS_QUICK, if thorough { 4 } else { 3 });
             for p in ex {
                 fixed.push(Item::new(&p, "exhaustive"));
@@ -1459,6 +1463,9 @@ pub fn work_list(cfg: &RunCfg) -> Option<WorkList> {
                 for h in ["X\\b", "\\bX+\\b", "X+", "(?i)X\\B.", "(X)\\b|a"].iter() {
                     fixed.push(Item::new(&h.replace("X", c), "class-syntax"));
                 }
+            }
+            for w in corpus::ingredient_sweep(true).iter() {
+                fixed.push(Item::new(w, "ingredient-sweep"));
             }
             for h in ["\\b", "\\B."].iter() {
                 for w in corpus::start_anchor_shapes(h).iter() {
